@@ -293,3 +293,40 @@ Theorem C14_intersect_sound_gen : forall d0 ms m qf qt fuel,
   go_seq_MIDsDistribution_IsIntersecting fuel (zdist (fold_left dist_add ms d0)) qf qt = Val true.
 Proof. exact intersect_sound_gen. Qed.
 Print Assumptions C14_intersect_sound_gen.
+
+(* ---- round 2: sort.Search (extern), util.BinSearchInRange, processor.getLIDsBorders, seq.LessOrEqual *)
+Theorem C14_gen_LessOrEqual_refines : forall a b, go_seq_LessOrEqual (zid a) (zid b) = id_le a b.
+Proof. exact gen_LessOrEqual_refines. Qed.
+Print Assumptions C14_gen_LessOrEqual_refines.
+
+(* the trusted extern sort_Search (65 rounds, GenPrelude.v) returns what the model's fuelled sort_search returns
+   for every predicate that does not panic below n, every n < 2^64: it never runs out of fuel there *)
+Theorem C14_gen_sort_Search_adequate : forall (f : Z -> bool) (F : Z -> outcome bool) n v,
+  (forall h, 0 <= h < n -> F h = Val (f h)) -> n < 18446744073709551616 ->
+  Model.sort_search n f = Some v -> sort_Search n F = Val v.
+Proof. exact sort_Search_model. Qed.
+Print Assumptions C14_gen_sort_Search_adequate.
+
+(* util.BinSearchInRange as generated = bin_search_in_range, the function C14_bin_search_spec is about *)
+Theorem C14_gen_BinSearchInRange_refines : forall from to (f : Z -> bool) (F : Z -> outcome bool) v,
+  - 4611686018427387904 < from < 4611686018427387904 -> - 4611686018427387904 < to < 4611686018427387904 ->
+  (forall x, from <= x <= to -> F x = Val (f x)) ->
+  bin_search_in_range from to f = Some v ->
+  go_util_BinSearchInRange from to F = Val v.
+Proof. exact gen_BinSearchInRange_refines. Qed.
+Print Assumptions C14_gen_BinSearchInRange_refines.
+
+(* getLIDsBorders as generated (struct literals, the decrement of minID.MID, two closures over the index) =
+   lids_borders, the function C14_lid_borders_exact and C14_pruning_is_optimisation are about, for every index of
+   fewer than 2^32 LIDs and every uint64 range; the pair is converted to uint32 as the code does *)
+Theorem C14_gen_getLIDsBorders_refines : forall le len minMID maxMID a b,
+  0 <= len < 4294967296 -> 0 <= minMID < two64 -> 0 <= maxMID < two64 ->
+  lids_borders le len minMID maxMID = Some (a, b) ->
+  go_processor_getLIDsBorders minMID maxMID (zix le len) = Val (u32 a, u32 b).
+Proof. exact gen_getLIDsBorders_refines. Qed.
+Print Assumptions C14_gen_getLIDsBorders_refines.
+
+Example C14_gen_borders_witness :
+  let ix := mk_ix go_ID 5 (fun lid x => go_seq_LessOrEqual (mk_go_ID (nth (Z.to_nat lid) [0; 40; 30; 30; 10] 0) 7) x) in
+  go_processor_getLIDsBorders 20 35 ix = Val (2, 3) /\ go_processor_getLIDsBorders 0 9 ix = Val (5, 4).
+Proof. vm_compute. split; reflexivity. Qed.
